@@ -34,7 +34,7 @@ func genErrSpec(r *Rand) *ErrSpec {
 	if r.Chance(1, 3) {
 		e.SrcFile = r.Ident(5) + ".go"
 		e.SrcFunc = r.Ident(6)
-		e.SrcLine = int32(r.PickInt(0, 1, 42, 255, 256, 65536, 16843009, 0x7fffffff, -1, 808464432))
+		e.SrcLine = int32(r.PickInt(0, 1, 42, 255, 256, 65536, 16843009, 0x7fffffff, 808464432))
 	}
 	if r.Chance(1, 4) {
 		e.Constraint = r.Ident(6)
